@@ -105,6 +105,46 @@ def ob_rules():
     return r
 
 
+def literal_const_fact():
+    """supporting static fact (scan of chaiscript_parser.hpp): the value of every literal is created const - buildInt and
+    buildFloat return const_var(...) on every path, and every Constant node made by Num / Id / Quoted_String /
+    Single_Quoted_String gets const_var(...), a value built by buildInt / buildFloat, or the `_` placeholder object."""
+    ph = chai2c.Header("include/chaiscript/language/chaiscript_parser.hpp")
+    bad, unknown, n = [], [], 0
+    for anchor in ("static Boxed_Value buildFloat(std::string_view t_val)", "static Boxed_Value buildInt(const int base, std::string_view t_val, const bool prefixed)"):
+        sl = ph.slice_function(anchor)
+        for mm in re.finditer(r"\breturn\s+([^;]+);", chai2c._mask(sl.body)):
+            n += 1
+            e = sl.body[mm.start(1):mm.end(1)].strip()
+            if not e.startswith("const_var("):
+                (bad if re.match(r"(Boxed_Value|var)\(", e) else unknown).append("%s: return %s" % (sl.where(), e[:60]))
+    txt = chai2c.strip_comments(ph.text)
+    m = chai2c._mask(txt)
+    for mm in re.finditer(r"\bmake_node<eval::Constant_AST_Node<Tracer>>\(", m):
+        op = mm.end() - 1
+        cp = chai2c.match_brace(m, op, "(", ")")
+        args, depth, cur = [], 0, ""
+        for ch in txt[op + 1:cp]:
+            if ch in "(<[{":
+                depth += 1
+            elif ch in ")>]}":
+                depth -= 1
+            if ch == "," and depth == 0:
+                args.append(cur)
+                cur = ""
+            else:
+                cur += ch
+        args.append(cur)
+        last = " ".join(args[-1].split())
+        n += 1
+        if last.startswith("const_var(") or last == "std::move(bv)" or last == "Boxed_Value(std::make_shared<dispatch::Placeholder_Object>())":
+            continue
+        line = txt.count("\n", 0, mm.start()) + 1
+        (bad if re.match(r"(Boxed_Value|var)\(", last) else unknown).append("line %d: %s" % (line, last[:60]))
+    return ("every_literal_value_is_created_const", False if bad else (None if unknown or n < 10 else True),
+            "; ".join(bad + unknown) or "%d literal construction sites" % n)
+
+
 def build(prop, tier="quick"):
     kb = KernelBuild("gate", prop)
     contracts = load_contracts("K6_gate.contracts")
@@ -384,6 +424,7 @@ def build(prop, tier="quick"):
             kb.emit_function(csig, sl, ar, c.fn, c.loops, cname, pre=apre)
         H("ptr_assign", "Boxed_Value *b; Type_Info *t;", "ptr_assign(b, t)", replace=["verif_Boxed_Value_assign"])
         H("unknown_assign", "Boxed_Value *b;", "unknown_assign(b)", replace=["verif_Boxed_Value_assign"])
+        kb.static_facts.append(literal_const_fact())
     if tier == "thorough" and prop == "C07":
         import engine_probe
         rc, cases, err = engine_probe.run("c07")
